@@ -317,6 +317,8 @@ func init() {
 	add("C12", ruleR16_13)
 	add("C18", ruleR18_8)
 	add("C20", ruleR09_13)
+	add("C09", ruleR09_14)
+	add("C01", ruleR09_14)
 	add("C09", ruleR09_13)
 	add("C05", ruleR09_13)
 	add("C01", ruleR13_5)
